@@ -113,8 +113,8 @@ func kindRouterRecv(id string, a []string) {
 		_, alive = join(c2, ser, b1)
 		c2.Close()
 	}
-	if len(back) > 64 {
-		back = back[:64]
+	if len(back) > 1<<16 {
+		back = back[:1<<16]
 	}
 	emit(id, "reply=%s welcome=true back=%s closed=%v alive=%v", hexs(reply), hexs(back), closed, alive)
 }
